@@ -37,6 +37,19 @@ def role_value(body, op):
     return vals
 
 
+def is_some_primary(b, op, depth=0):
+    """does this operand hold Some(Role::Primary) / Role::Primary built from aggregates?"""
+    if op is None or depth > 3:
+        return False
+    for o in origins(b, op):
+        if o.kind == "agg":
+            if str(o.extra.get("variant")) == "Primary":
+                return True
+            if any(is_some_primary(b, x, depth + 1) for x in o.extra.get("ops", [])):
+                return True
+    return False
+
+
 def run(ctx):
     F = ctx.facts
     ctx.explanation = ("dominance of every non-primary role assignment by the Statement::Query arm, field/variant coverage of the read-write classifier, "
@@ -234,6 +247,14 @@ def run(ctx):
                      "the Query arm can return an error (`?` at %s) before the role is decided: the previous transaction's role is reused for this statement" % c.span, c.where(), wit and inf.describe_path(wit))
 
     # ---------------- R4 the pool is asked for what the router decided
+    # a QueryRouter method all of whose paths pass a call of infer() is as good as infer() (wrapper rule)
+    infer_like = [INFER]
+    for n_, b_ in F.bodies.items():
+        if n_.startswith("pgcat::query_router::QueryRouter::") and n_ != INFER and "::{" not in n_:
+            ic = [c.block for c in b_.calls(INFER)]
+            rets_ = [bb for bb, blk in enumerate(b_.blocks) if blk["term"]["k"] == "return"]
+            if ic and b_.uncrossed_path([0], rets_, blocks=ic) is None:
+                infer_like.append(n_)
     r4 = ctx.rule("C05-R4", "Client::handle passes QueryRouter::shard()/role() of the router that ran infer to ConnectionPool::get, and infer runs on every parsed initial Q/P message", floor=3)
     h = ctx.body(H, r4)
     if h:
@@ -251,7 +272,7 @@ def run(ctx):
                 vis = set()
                 origins(h, call.args[0], visited=vis)
                 return {l for l in vis if h.varnames.get(l)}
-            inf_calls = h.calls(INFER)
+            inf_calls = h.calls(*infer_like)
             shard_calls = [o.call for o in origins(h, g.args[1]) if o.kind == "call"] + [o.call for o in origins(h, g.args[2]) if o.kind == "call"]
             roots_ = set.intersection(*[recv_roots(c) for c in inf_calls + shard_calls]) if inf_calls and shard_calls else set()
             r4.check(bool(roots_), "same-router", "infer and shard()/role() act on the same QueryRouter local (%s)" % sorted(h.local_name(l) for l in roots_), "infer and the checkout arguments use different routers")
@@ -259,7 +280,7 @@ def run(ctx):
         if gets and claim:
             outer_parse = [c for c in h.calls("pgcat::query_router::QueryRouter::parse") if not h.dominates(claim[0].block, c.block)]
             r4.check(len(outer_parse) >= 2, "outer-parse-sites", "%d parse sites before checkout (Q and P arms)" % len(outer_parse), "expected parse sites for the Q and P arms before checkout, found %d" % len(outer_parse))
-            inf_blocks = [c.block for c in h.calls(INFER)]
+            inf_blocks = [c.block for c in h.calls(*infer_like)]
             deny, _, _ = discr_edges(h, r"plugins::PluginOutput", "Deny", switches_cache=hsw)
             icpt, _, _ = discr_edges(h, r"plugins::PluginOutput", "Intercept", switches_cache=hsw)
             hh = [x for x in loop_headers(h) if h.dominates(x, gets[0].block)]
@@ -274,6 +295,53 @@ def run(ctx):
                 r4.check(wit is None, "infer-after-parse#%d" % outer_parse.index(pc), "a successfully parsed initial message always reaches infer before checkout / next message",
                          "a parsed initial message can reach the checkout without infer (role of the previous transaction is reused)", pc.where(), wit and h.describe_path(wit))
 
+
+    # ---------------- R7 (D22) one batch, one server: a write anywhere in the pipelined batch decides
+    r7 = ctx.rule("C05-R7", "the role of an extended-protocol batch (checked out when its Sync arrives) is not decided by its last Parse alone: the routine that infers the role for a Parse buffered before the checkout "
+                  "keeps a primary decision of an earlier Parse of the same batch", floor=3)
+    if h:
+        rm_ = [c.block for c in h.calls("pgcat::messages::read_message")]
+        heads_ = [hd for hd in loop_headers(h) if any(b_ in natural_loop(h, hd) for b_ in rm_)]
+        claim_ = h.calls("pgcat::server::Server::claim")
+        bp = [c for c in h.calls("pgcat::client::Client::buffer_parse") if claim_ and not h.dominates(claim_[0].block, c.block)]
+        pre = [c for c in h.calls(*infer_like) if bp and claim_ and not h.dominates(claim_[0].block, c.block) and any(bpc.block in h.reach([c.block], avoid_blocks=heads_) for bpc in bp)]
+        if not bp or not pre:
+            r7.missing("infer for a Parse that is buffered before the checkout (idle loop of Client::handle)")
+        else:
+            for c in pre:
+                if c.name == INFER:
+                    r7.check(False, "batch-sticky:" + c.name.split("::")[-1], "", "the idle loop infers the role anew at every buffered Parse and the last one wins: `Parse(INSERT ..) Bind Execute Parse(SELECT 1) Bind Execute Sync` "
+                             "runs - INSERT included - on a replica", c.where())
+                    continue
+                wb = F.body(c.name)
+                ic = wb.calls(INFER)
+                # a primary decision read before infer() ...
+                pre_reads = [bb for bb, blk in enumerate(wb.blocks) for st in blk["stmts"] if st["k"] == "assign" and st["rv"]["k"] == "discr" and "active_role" in proj_fields(st["rv"]["pl"]) and all(k.block in wb.reach([bb]) and bb != k.block and (k.target is None or bb not in wb.reach([k.target])) for k in ic)]
+                # ... re-established after it
+                post = [blk for blk, i, st in wb.assigns() if proj_fields(st["lhs"])[-1:] == ["active_role"] and any(blk in wb.reach([k.target]) for k in ic if k.target is not None)
+                        and is_some_primary(wb, st["rv"].get("op") or (st["rv"].get("ops") or [None])[0])]
+                guards = set()
+                for blk in post:
+                    for sb, t in wb.control_deps(blk, depth=3):
+                        guards |= set(cond_locals(wb, sb))
+                flag_from_read = False
+                for l in guards:
+                    for d_ in [blk2 for blk2, i2, st2 in wb.assigns() if st2["lhs"]["l"] == l and not st2["lhs"]["p"]]:
+                        if any(wb.dominates(r_, d_) for r_ in pre_reads):
+                            flag_from_read = True
+                r7.check(bool(pre_reads) and bool(post) and flag_from_read, "batch-sticky:" + c.name.split("::")[-1],
+                         "%s reads the role before infer() and re-establishes Some(Primary) after it when it was primary" % c.name.split("::")[-1],
+                         "%s does not keep an earlier primary decision across infer(): the last Parse of a batch decides where all of it runs" % c.name.split("::")[-1], c.where())
+                # the caller says whether an earlier Parse of this batch exists, from the buffered batch
+                argf = set()
+                for a in c.args[1:]:
+                    for o in origins(h, a, taint=True):
+                        if o.kind in ("place", "param"):
+                            argf.update(p_[1:] for p_ in o.proj if p_.startswith(".") and not p_[1:].isdigit())
+                        if o.kind == "agg" and o.extra.get("agg") == "closure":
+                            argf.add("closure")
+                r7.check("extended_protocol_data_buffer" in argf, "batch-known-from-buffer", "the caller derives `an earlier Parse is buffered` from extended_protocol_data_buffer", "the batch-stickiness flag is not derived from the buffered batch (%s)" % sorted(argf), c.where())
+            r7.check(len(bp) >= 1, "buffered-parse-site", "%d site(s) buffer a Parse before the checkout" % len(bp), "no buffered Parse before the checkout")
     # ---------------- R5 role filter
     r5 = ctx.rule("C05-R5", "ConnectionPool::get only considers servers whose role matches the requested role (None = any); the candidate list is afterwards only shuffled, narrowed, sorted or popped", floor=3)
     g = ctx.body(GETC, r5)
